@@ -276,6 +276,11 @@ int main(void)
 				first = 0;
 			}
 			printf("]\n");
+		} else if (!strcmp(opn, "shape") && n == 2) {
+			const tommy_hashlin *h = &tables[a].hashtable;
+
+			printf("shape bit=%u low_max=%u split=%u state=%u\n", (unsigned int)h->bucket_bit, (unsigned int)h->low_max,
+			       (unsigned int)h->split, (unsigned int)h->state);
 		} else {
 			printf("bad %s\n", line);
 		}
